@@ -217,6 +217,16 @@ def judge(case, ctx, prefix='C14'):
             if lab is None:
                 continue
             judge_label(ctx, prefix, aname, 'potential', 'node', lab, rep['phi'][mn] * sc, 'V', opt, refd['tol'] * refd['s_phi'] * sc * 8, wa, False)
+            # a potential is the potential OF A NODE: the label has to sit on the node it was asked for
+            if not raised(lab):
+                node_sym = next(e for e in d.elements if getattr(e, 'name', None) == name)
+                where = lab._userparams.get('at')
+                want = node_sym.absanchors['start']
+                ctx.count('potential_label_positions_checked')
+                if where is None or abs(where[0] - want[0]) > 1e-6 or abs(where[1] - want[1]) > 1e-6:
+                    held = any(s.get('hold') for s, e in getattr(d, '_vmon_placed', []) if e is node_sym)
+                    ctx.violation(f'{prefix}/{aname}/potential-label-on-another-point/{"held-node" if held else "node"}',
+                                  f'potential label of node {name!r} is placed at {tuple(where) if where is not None else None!r}, the node symbol is at {tuple(want)!r}', {})
 
 
 def judge_label(ctx, prefix, aname, q, ctor, lab, val, unit, opt, numtol, w, rev):
